@@ -224,10 +224,7 @@ func (p *process) cleanup(cancel context.CancelFunc) {
 	// Only now do we disappear from the registry and from our parent: whoever
 	// asks for us to be stopped while Stopped is still being handled (our
 	// parent shutting down, another caller) must find us and wait for us.
-	p.context.engine.Registry.Remove(p.pid)
-	if p.context.parentCtx != nil {
-		p.context.parentCtx.children.Delete(p.pid.ID)
-	}
+	p.context.engine.Registry.removeProcess(p)
 
 	p.context.engine.BroadcastEvent(ActorStoppedEvent{PID: p.pid, Timestamp: time.Now()})
 }
